@@ -189,6 +189,7 @@ def alphabet(limits):
         A.append(L.tick(100, "Q", [wrap(["C", 1, None])]))  # ... 100 ms steps keep requests in flight over an update
         A.append(L.tick(1000, "Q", [wrap(["C", 0, None])]))
         A.append(L.tick(1000, "Q", [wrap(["R", 0, 2.3])]))
+        A.append(L.tick(100, "T22", [wrap(["R", 0, 2.3])]))  # the order is matched while the replace is in flight: nothing is submitted for it
         A.append(L.tick(3600_000, "Q", [wrap(L.P("PBn"))]))
         A.append(L.tick(1000, "Q", [wrap(L.P("XB", force=True))]))
     A.append(L.tick(1000, "OPN"))
